@@ -130,9 +130,7 @@ Qed.
 Definition coarse_guard_all (r : raw) (n : nat) : Prop :=
   spec_wf r = true /\ all_opt (r_byweekno r) weekno_safe = true /\ r_byeaster r = None /\
   (r_freq r = YEARLY \/ r_freq r = MONTHLY \/
-   (r_freq r = WEEKLY /\ (r_bysetpos r <> None -> 1 <= ws0 r) /\
-    (n <> 0%nat -> wlo r (Z.of_nat n - 1) + 6 <= max_ord)) \/
-   r_freq r = DAILY).
+   r_freq r = WEEKLY \/ r_freq r = DAILY).
 
 (* every rule under coarse_guard_all is, or has the same constructor result and specified sequence as, a rule
    under coarse_guard *)
@@ -140,13 +138,13 @@ Lemma guard_reduce r rl n : normalize r = Ok rl -> coarse_guard_all r n ->
   exists r', normalize r' = Ok rl /\ coarse_guard r' n /\
              (forall limit, spec_iter r' limit n = spec_iter r limit n).
 Proof.
-  intros HN (HW & Hs & He & [Hf|[Hf|[(Hf & Hw & Hn)|Hf]]]).
+  intros HN (HW & Hs & He & [Hf|[Hf|[Hf|Hf]]]).
   - exists r. split; [exact HN|]. split; [|reflexivity]. repeat split; try assumption. left. exact Hf.
   - exists r. split; [exact HN|]. split; [|reflexivity]. repeat split; try assumption. right. left. exact Hf.
   - assert (Hm : (MONTHLY <? r_freq r) = true) by (rewrite Hf; reflexivity).
     exists (strip r). split; [rewrite (normalize_strip r Hm); exact HN|]. split.
     + split; [rewrite spec_wf_strip; exact HW|]. split; [exact Hs|]. split; [exact He|].
-      right. right. left. split; [exact Hf|]. split; [apply plain_only_strip|]. split; [exact Hw|exact Hn].
+      right. right. left. split; [exact Hf|apply plain_only_strip].
     + intros limit. apply (spec_iter_strip r limit n Hm).
   - assert (Hm : (MONTHLY <? r_freq r) = true) by (rewrite Hf; reflexivity).
     exists (strip r). split; [rewrite (normalize_strip r Hm); exact HN|]. split.
@@ -187,7 +185,7 @@ Theorem rrule_total_coarse_all : forall r limit n, coarse_guard_all r n ->
 Proof.
   intros r limit n G. pose proof G as (HW & _ & _ & Hf).
   destruct (normalize_total_coarse r HW) as (rl & HN).
-  { unfold HOURLY, YEARLY, MONTHLY, WEEKLY, DAILY in *. destruct Hf as [Hf|[Hf|[(Hf & _)|Hf]]]; rewrite Hf; reflexivity. }
+  { unfold HOURLY, YEARLY, MONTHLY, WEEKLY, DAILY in *. destruct Hf as [Hf|[Hf|[Hf|Hf]]]; rewrite Hf; reflexivity. }
   exists rl. split; [exact HN|]. apply (rrule_no_exception_coarse_all r rl limit n HN G).
 Qed.
 
@@ -205,6 +203,5 @@ Example weekly_nth_example :
   end.
 Proof.
   split; [|split; [reflexivity|vm_compute; reflexivity]].
-  split; [reflexivity|]. split; [reflexivity|]. split; [reflexivity|]. right. right. left.
-  split; [reflexivity|]. split; [intros H; exfalso; apply H; reflexivity|]. intros _. vm_compute. discriminate.
+  split; [reflexivity|]. split; [reflexivity|]. split; [reflexivity|]. right. right. left. reflexivity.
 Qed.
